@@ -285,6 +285,12 @@ async def _abandoned_sender_session(seed: int) -> dict[str, Any]:
     wa = asyncio.ensure_future(tls.send_all(A))
     for _ in range(rng.randint(5, 30)):
         await asyncio.sleep(0)
+    # a second sender overlaps the suspended one: it may not return before its bytes can be handed over (the pipe is full, nobody reads)
+    D = b"D" * rng.choice([1, 700])
+    wd = asyncio.ensure_future(tls.send_all(D))
+    for _ in range(60):
+        await asyncio.sleep(0)
+    d_early = wd.done() and not wa.done()
     wb = asyncio.ensure_future(tls.send_all(B))
     for _ in range(rng.randint(1, 30)):
         await asyncio.sleep(0)
@@ -310,8 +316,8 @@ async def _abandoned_sender_session(seed: int) -> dict[str, Any]:
             got.extend(data)
 
     try:
-        pr = asyncio.ensure_future(peer_reader(len(A)))
-        await asyncio.wait([wa, pr], timeout=300)
+        pr = asyncio.ensure_future(peer_reader(len(A) + len(D)))
+        await asyncio.wait([wa, wd, pr], timeout=300, return_when=asyncio.ALL_COMPLETED)
         reader = asyncio.ensure_future(until_c())
         wc = asyncio.ensure_future(tls.send_all(C))
         done, pending = await asyncio.wait([reader, wc], timeout=300)
@@ -327,8 +333,11 @@ async def _abandoned_sender_session(seed: int) -> dict[str, Any]:
     except OSError as exc:
         problem = f"{type(exc).__name__}: {exc}"
     nb = bytes(got).count(b"B")
-    expected = A + B[:nb] + C
+    expected = A + D + B[:nb] + C
+    if d_early and not problem:
+        problem = "send_all() of an overlapping sender returned while the first one was still suspended and nobody was reading (no back-pressure)"
     ev("write", "out", len(A))
+    ev("write", "out", len(D))
     ev("write", "out", nb)  # an abandoned write counts for what TLS had accepted of it
     ev("write", "out", len(C))
     ev("read", "out", len(got), bytes(got) == expected and (nb == len(B) or not b_finished))
